@@ -1169,7 +1169,11 @@ fn fixup_struct(
 ) -> (Option<String>, BaseType) {
     let mut new_structitems = Vec::<DataItem>::new();
     for item in structitems {
-        new_structitems.extend(fixup_add_data_to_struct(spec, item, defined_types));
+        // a member that is a struct itself remains a separate struct in the IF_DATA that is parsed according
+        // to the A2ML, so it must not be flattened into this struct (unlike the data of a block)
+        if item.basetype != BaseType::None {
+            new_structitems.push(fixup_make_dataitem(spec, item, defined_types));
+        }
     }
     fixup_make_varnames_unique(&mut new_structitems);
 
